@@ -33,6 +33,16 @@ type fieldDesc struct {
 	// Tube = 1, 2, 3: instead of a sphere, an (infinite) cylinder of radius r along the x, y, z axis through C,
 	// cut off by the domain box: one field whose surface runs through every block it spans
 	Tube int `json:"tube,omitempty"`
+	// NFun > 0: this field carries the attributes 0 .. NFun-1 instead of the case's nfun (a later field may
+	// introduce an attribute the canvas did not hold before)
+	NFun int `json:"nfun,omitempty"`
+}
+
+func (f fieldDesc) nfun(def int) int {
+	if f.NFun > 0 {
+		return f.NFun
+	}
+	return def
 }
 
 const surfaceOffset = 7.25 // field value on the sphere; |p-c| = r - 7.25 has no solution on integer p, so no cell is 0
@@ -45,6 +55,7 @@ func attrOf(k int) string {
 }
 
 func (f fieldDesc) field(nfun int) marching.Field {
+	nfun = f.nfun(nfun)
 	lo := vector3.New(float64(f.Lo[0]), float64(f.Lo[1]), float64(f.Lo[2]))
 	hi := vector3.New(float64(f.Hi[0]), float64(f.Hi[1]), float64(f.Hi[2]))
 	c := vector3.New(float64(f.C[0]), float64(f.C[1]), float64(f.C[2]))
@@ -84,13 +95,36 @@ func (f fieldDesc) field(nfun int) marching.Field {
 	}
 }
 
-// fieldBounds of canvas.go for cubesPerUnit = 1 and an integer domain
-func (f fieldDesc) box() (mn, mx [3]int) {
+// fieldBounds of canvas.go for an integer domain and cpu cubes per unit (1, or a power of two: the products are exact)
+func (f fieldDesc) box(cpu float64) (mn, mx [3]int) {
 	for k := 0; k < 3; k++ {
-		mn[k] = f.Lo[k] - 1
-		mx[k] = f.Hi[k] + 1
+		mn[k] = int(math.Floor(float64(f.Lo[k])*cpu)) - 1
+		mx[k] = int(math.Ceil(float64(f.Hi[k])*cpu)) + 1
 	}
 	return
+}
+
+// number of attributes of the canvas: the largest function count of a field
+func (d desc) maxNFun() int {
+	n := d.NFun
+	for _, f := range d.Fields {
+		if f.NFun > n {
+			n = f.NFun
+		}
+	}
+	for _, op := range d.Ops {
+		if op.Field != nil && op.Field.NFun > n {
+			n = op.Field.NFun
+		}
+	}
+	return n
+}
+
+func (d desc) cpu() float64 {
+	if d.CPU > 0 {
+		return d.CPU
+	}
+	return 1
 }
 
 type chunkRow struct {
@@ -181,17 +215,18 @@ func canvasEqual(a, b []chunkRow) bool {
 type triKey [9]int
 
 // triangles of a marched mesh as sorted triples of weld-cell keys (the rounding WeldByFloat3Attribute uses)
-func triKeys(m modeling.Mesh) []triKey {
-	if !m.HasFloat3Attribute(modeling.PositionAttribute) {
+func triKeys(m modeling.Mesh, attr string, cpu float64) []triKey {
+	if !m.HasFloat3Attribute(attr) {
 		return nil
 	}
-	pos := m.Float3Attribute(modeling.PositionAttribute)
+	pos := m.Float3Attribute(attr)
 	idx := m.Indices()
 	var out []triKey
 	for t := 0; t+2 < idx.Len(); t += 3 {
 		var k triKey
 		for c := 0; c < 3; c++ {
-			vi := modeling.Vector3ToInt(pos.At(idx.At(t+c)), 4) // weldDecimalPlaces of canvas.go (cell units; cubesPerUnit = 1)
+			// weldDecimalPlaces of canvas.go; the weld happens in cell units: scale back (cpu is a power of two, exact)
+			vi := modeling.Vector3ToInt(pos.At(idx.At(t+c)).Scale(cpu), 4)
 			k[3*c], k[3*c+1], k[3*c+2] = vi.X, vi.Y, vi.Z
 		}
 		out = append(out, k)
@@ -233,8 +268,8 @@ func runMarch(d desc) marchOutcome {
 	if d.ParOnly {
 		return runMarchParOnly(d)
 	}
-	seqC := marching.NewMarchingCanvas(1)
-	parC := marching.NewMarchingCanvas(1)
+	seqC := marching.NewMarchingCanvas(d.cpu())
+	parC := marching.NewMarchingCanvas(d.cpu())
 	var addPanicS, addPanicP string
 	for _, f := range d.Fields {
 		func() {
@@ -254,12 +289,12 @@ func runMarch(d desc) marchOutcome {
 			parC.AddFieldParallel(f.field(d.NFun))
 		}()
 	}
-	sr, pr := readCanvas(seqC, d.NFun), readCanvas(parC, d.NFun)
+	sr, pr := readCanvas(seqC, d.maxNFun()), readCanvas(parC, d.maxNFun())
 	var o marchOutcome
 	o.canvasEq = canvasEqual(sr, pr) && addPanicS == addPanicP
 	o.seqRows = len(sr)
 	for _, r := range sr {
-		if r.attr == 0 {
+		if r.attr == d.MAttr {
 			o.blocks++
 		}
 	}
@@ -268,12 +303,12 @@ func runMarch(d desc) marchOutcome {
 		o.coq = marchCoq(d, sr, pr, o)
 		return o
 	}
-	sm, sp := marchMesh(func() modeling.Mesh { return seqC.March(d.Cutoff) })
-	pm, pp := marchMesh(func() modeling.Mesh { return parC.MarchParallel(d.Cutoff) })
+	sm, sp := marchMesh(func() modeling.Mesh { return marchSeq(seqC, d.MAttr, d.Cutoff) })
+	pm, pp := marchMesh(func() modeling.Mesh { return marchPar(parC, d.MAttr, d.Cutoff) })
 	o.seqPanic, o.parPanic = sp, pp
 	o.marchEq = (sp == "") == (pp == "")
 	if sp == "" && pp == "" {
-		sk, pk := triKeys(sm), triKeys(pm)
+		sk, pk := triKeys(sm, attrOf(d.MAttr), d.cpu()), triKeys(pm, attrOf(d.MAttr), d.cpu())
 		o.tris = len(sk)
 		if len(sk) != len(pk) {
 			o.marchEq = false
@@ -294,11 +329,25 @@ func runMarch(d desc) marchOutcome {
 	return o
 }
 
+// March / MarchParallel for the default attribute, MarchOnAttribute[Parallel] for the others
+func marchSeq(c *marching.MarchingCanvas, attr int, cutoff float64) modeling.Mesh {
+	if attr == 0 {
+		return c.March(cutoff)
+	}
+	return c.MarchOnAttribute(attrOf(attr), cutoff)
+}
+func marchPar(c *marching.MarchingCanvas, attr int, cutoff float64) modeling.Mesh {
+	if attr == 0 {
+		return c.MarchParallel(cutoff)
+	}
+	return c.MarchOnAttributeParallel(attrOf(attr), cutoff)
+}
+
 func marchCoq(d desc, sr, pr []chunkRow, o marchOutcome) string {
 	boxes := make([]string, len(d.Fields))
 	for i, f := range d.Fields {
-		mn, mx := f.box()
-		boxes[i] = fmt.Sprintf("((%s,%s,%s),(%s,%s,%s))", hx.CoqZ(int64(mn[0])), hx.CoqZ(int64(mn[1])), hx.CoqZ(int64(mn[2])),
+		mn, mx := f.box(d.cpu())
+		boxes[i] = fmt.Sprintf("(%d%%nat,((%s,%s,%s),(%s,%s,%s)))", f.nfun(d.NFun), hx.CoqZ(int64(mn[0])), hx.CoqZ(int64(mn[1])), hx.CoqZ(int64(mn[2])),
 			hx.CoqZ(int64(mx[0])), hx.CoqZ(int64(mx[1])), hx.CoqZ(int64(mx[2])))
 	}
 	return fmt.Sprintf("CMarch [%s] %d%%nat %s %s %s %s", strings.Join(boxes, ";"), d.NFun, rowsCoq(sr), rowsCoq(pr),
@@ -308,18 +357,18 @@ func marchCoq(d desc, sr, pr []chunkRow, o marchOutcome) string {
 // only the parallel variants (for the -race binary, where a sequential march of 20 blocks costs ~40 s): the
 // verdict comes from the race detector
 func runMarchParOnly(d desc) marchOutcome {
-	parC := marching.NewMarchingCanvas(1)
+	parC := marching.NewMarchingCanvas(d.cpu())
 	for _, f := range d.Fields {
 		parC.AddFieldParallel(f.field(d.NFun))
 	}
 	var o marchOutcome
 	o.canvasEq = true
-	a, ap := marchMesh(func() modeling.Mesh { return parC.MarchParallel(d.Cutoff) })
+	a, ap := marchMesh(func() modeling.Mesh { return marchPar(parC, d.MAttr, d.Cutoff) })
 	o.marchEq = true
 	if ap == "" {
-		o.tris = len(triKeys(a))
+		o.tris = len(triKeys(a, attrOf(d.MAttr), d.cpu()))
 	}
-	pr := readCanvas(parC, d.NFun)
+	pr := readCanvas(parC, d.maxNFun())
 	o.coq = marchCoq(d, pr, pr, o)
 	return o
 }
@@ -336,9 +385,16 @@ type opDesc struct {
 }
 
 func runSequence(d desc) []marchOutcome {
-	test := marching.NewMarchingCanvas(1)
+	test := marching.NewMarchingCanvas(d.cpu())
 	var added []fieldDesc
 	var outs []marchOutcome
+	// meshes returned by MarchParallel, kept until the end of the sequence: a retained result must not change
+	type kept struct {
+		mesh modeling.Mesh
+		keys []triKey
+		out  int
+	}
+	var retained []kept
 	step := 0
 	for _, op := range d.Ops {
 		switch op.Op {
@@ -357,14 +413,14 @@ func runSequence(d desc) []marchOutcome {
 				}
 			}()
 		case "march":
-			fresh := marching.NewMarchingCanvas(1)
+			fresh := marching.NewMarchingCanvas(d.cpu())
 			for _, f := range added {
 				func() {
 					defer func() { recover() }()
 					fresh.AddField(f.field(d.NFun))
 				}()
 			}
-			sr, pr := readCanvas(fresh, d.NFun), readCanvas(test, d.NFun)
+			sr, pr := readCanvas(fresh, d.maxNFun()), readCanvas(test, d.maxNFun())
 			var o marchOutcome
 			o.canvasEq = canvasEqual(sr, pr)
 			for _, r := range sr {
@@ -377,7 +433,8 @@ func runSequence(d desc) []marchOutcome {
 			o.seqPanic, o.parPanic = sp, pp
 			o.marchEq = (sp == "") == (pp == "")
 			if sp == "" && pp == "" {
-				sk, pk := triKeys(sm), triKeys(pm)
+				sk, pk := triKeys(sm, attrOf(0), d.cpu()), triKeys(pm, attrOf(0), d.cpu())
+				retained = append(retained, kept{mesh: pm, keys: pk, out: len(outs)})
 				o.tris = len(sk)
 				if len(sk) != len(pk) {
 					o.marchEq = false
@@ -417,6 +474,20 @@ func runSequence(d desc) []marchOutcome {
 			o.coq = marchCoq(dd, sr, pr, o)
 			outs = append(outs, o)
 			step++
+		}
+	}
+	for _, k := range retained {
+		again := triKeys(k.mesh, attrOf(0), d.cpu())
+		same := len(again) == len(k.keys)
+		for i := 0; same && i < len(again); i++ {
+			same = again[i] == k.keys[i]
+		}
+		if !same && outs[k.out].marchEq {
+			o := outs[k.out]
+			o.marchEq = false
+			o.detail = fmt.Sprintf("march #%d: the mesh MarchParallel returned changed while later operations ran on the canvas", k.out)
+			o.coq = strings.TrimSuffix(o.coq, " true") + " false"
+			outs[k.out] = o
 		}
 	}
 	return outs
